@@ -212,28 +212,28 @@ func VerifC02VerticalTab() {
 	vAssert(quotesEscaped(out) && noPlainBackslash(out) && printableOneLine(out) && pgPlus(out), "C02 includeVerticalTabInSpaceClass keeps the output invariants")
 }
 
-// Lemma 5 (C02 + C19): dontUseFlagsForMetaCharacters and removeOutermostNonCapturingGroup never fault on
-// printer-shaped text, leave no inline flag group and keep the invariants.
+// Lemma 5 (C02 + C19): dontUseFlagsForMetaCharacters never faults on printer-shaped text, leaves no inline flag
+// group and keeps every output invariant that held before (weakest precondition: PG+ only, so the lemma does not
+// depend on the order of the earlier passes).
 func VerifC02FlagGroups() {
 	t := vNondetStrP("t", 14)
 	vAssume(pgPlus(t))
-	vAssume(quotesEscaped(t))
-	vAssume(noPlainBackslash(t))
-	o := newOp()
-	mid := o.dontUseFlagsForMetaCharacters(t)
+	mid := newOp().dontUseFlagsForMetaCharacters(t)
 	vReach("after-flags")
 	vAssert(noInlineFlagGroup(mid), "C02 no inline flag group survives")
-	vAssert(quotesEscaped(mid) && noPlainBackslash(mid) && printableOneLine(mid) && pgPlus(mid), "C02 dontUseFlagsForMetaCharacters keeps the output invariants")
+	vAssert(printableOneLine(mid) && pgPlus(mid), "C02 dontUseFlagsForMetaCharacters keeps the text printable and printer-shaped")
+	vAssert(!quotesEscaped(t) || quotesEscaped(mid), "C02 dontUseFlagsForMetaCharacters keeps quotes escaped")
+	vAssert(!noPlainBackslash(t) || noPlainBackslash(mid), "C02 dontUseFlagsForMetaCharacters introduces no plain backslash")
 }
 
 func VerifC02Outermost() {
 	t := vNondetStrP("t", 14)
 	vAssume(pgPlus(t))
-	vAssume(quotesEscaped(t))
-	vAssume(noPlainBackslash(t))
 	out := newOp().removeOutermostNonCapturingGroup(t)
 	vReach("after")
-	vAssert(quotesEscaped(out) && noPlainBackslash(out) && printableOneLine(out) && pgPlus(out), "C02 removeOutermostNonCapturingGroup keeps the output invariants")
+	vAssert(printableOneLine(out) && pgPlus(out), "C02 removeOutermostNonCapturingGroup keeps the text printable and printer-shaped")
+	vAssert(!quotesEscaped(t) || quotesEscaped(out), "C02 removeOutermostNonCapturingGroup keeps quotes escaped")
+	vAssert(!noPlainBackslash(t) || noPlainBackslash(out), "C02 removeOutermostNonCapturingGroup introduces no plain backslash")
 }
 
 // Lemma 6: the flags prefix built by complete() (map iteration order symbolic) is (?i), (?s) or (?is).
